@@ -1,7 +1,7 @@
 import os
 
 from .. import common as C
-from ..enumcheck import enum_check, enum_replay
+from ..enumcheck import enum_check, enum_pass, enum_replay
 
 PROP = "C02"
 HARNESS = "c01_codec"
@@ -33,27 +33,8 @@ def corpus():
 
 def client_pass(tier):
     def post(res, cov, findings):
-        bdir = C.build([HARNESS])
-        binary = os.path.join(bdir, HARNESS)
-        args = ["--tier", tier, "--opt", "engine=c02c", "--opt", "corpus=" + corpus()]
-        r2 = C.run_sharded(binary, args, nshards=None, timeout=None)
-        for shard, rc, err in r2["crashed"]:
-            raise C.InternalError("client pass: shard %d of %s exited with rc=%s: %s" % (shard, HARNESS, rc, err[-1500:]))
-        by_key = {}
-        for v in r2["violations"]:
-            by_key.setdefault(v["key"], v)
-        for key, v in sorted(by_key.items()):
-            ok = 0
-            for _ in range(2):
-                vio, rc, err = C.run_replay(binary, v["case"], args)
-                if any(x["key"] == key for x in vio):
-                    ok += 1
-            if ok != 2:
-                raise C.InternalError("violation %s did not reproduce deterministically (%d/2): %s" % (key, ok, v.get("msg", "")[:500]))
-            findings.append(dict(key=key, msg=v.get("msg", ""), replay=C.write_replay(PROP, HARNESS, key, v.get("msg", ""), v["case"])))
-        for w in ("client_sessions", "injections_answered"):
-            if r2["counters"].get(w, 0) <= 0:
-                raise C.InternalError("client pass: witness counter '%s' is zero" % w)
+        r2 = enum_pass(PROP, HARNESS, tier, ["--opt", "engine=c02c", "--opt", "corpus=" + corpus()], findings,
+                       witness=("client_sessions", "injections_answered"), label="client pass")
         cov["client_injections"] = r2["evaluations"]
         cov["client_counters"] = r2["counters"]
         cov["client_violation_counts_by_key"] = r2["violation_keys"]
